@@ -1,0 +1,53 @@
+//go:build verif
+
+package server
+
+import (
+	"sort"
+
+	lua "github.com/yuin/gopher-lua"
+)
+
+// verifLuaGlobals walks, from Go, everything reachable from the globals table
+// of a pooled Lua state (tables, metatables) and returns "path:type" lines.
+func (s *Server) verifLuaGlobals() []string {
+	L, err := s.luapool.Get()
+	if err != nil {
+		return []string{"error: " + err.Error()}
+	}
+	defer s.luapool.Put(L)
+	var out []string
+	seen := map[*lua.LTable]bool{}
+	var walk func(path string, v lua.LValue, depth int)
+	walk = func(path string, v lua.LValue, depth int) {
+		out = append(out, path+":"+v.Type().String())
+		tbl, ok := v.(*lua.LTable)
+		if !ok || seen[tbl] || depth > 6 {
+			return
+		}
+		seen[tbl] = true
+		tbl.ForEach(func(k, val lua.LValue) {
+			walk(path+"."+k.String(), val, depth+1)
+		})
+		if mt, ok := L.GetMetatable(tbl).(*lua.LTable); ok {
+			walk(path+".<metatable>", mt, depth+1)
+		}
+	}
+	g, _ := L.Get(lua.GlobalsIndex).(*lua.LTable)
+	if g == nil {
+		return []string{"error: no globals table"}
+	}
+	seen[g] = true
+	g.ForEach(func(k, val lua.LValue) {
+		walk(k.String(), val, 1)
+	})
+	if mt, ok := L.GetMetatable(g).(*lua.LTable); ok {
+		walk("<globals-metatable>", mt, 1)
+	}
+	// the string metatable is reachable through any string value
+	if mt, ok := L.GetTypeMetatable("string").(*lua.LTable); ok {
+		walk("<string-metatable>", mt, 1)
+	}
+	sort.Strings(out)
+	return out
+}
